@@ -186,7 +186,13 @@ theorem glob_regex_text (pat : Str) (cs : Bool) (c : Glob.Compiled)
 example : (Glob.translateGlob "a/**/[!x]*.py".toList).map (fun c => String.ofList c.re.toPy)
     = .ok "(?s)^/a(?:/[^/]+)*/(?!/)[^x][^/]*\\.py/?\\Z" := by decide
 
-/-! ## the compiled-pattern cache (fs/lrucache.py, `_PATTERN_CACHE`) -/
+/-! ## the compiled-pattern caches (fs/lrucache.py; `fs.glob._PATTERN_CACHE`, `fs.wildcard._PATTERN_CACHE`)
+
+Every user of the two process-wide caches is in the model: `glob.match`/`imatch` (read, write on a
+miss), `Globber._make_iter` — and through it `__iter__`, `count`, `count_lines`, `remove` — (read
+only; a miss compiles privately and stores nothing), `wildcard.match`/`imatch` (read, write on a
+miss).  A cache is *valid* when every entry is what compiling its key `(pattern, case_sensitive)`
+gives. -/
 
 /-- matching through the LRU cache gives the answer of matching without it and keeps the
 cache valid — for every valid cache state, every capacity, every eviction. -/
@@ -196,7 +202,38 @@ theorem pattern_cache_transparent (cache : Glob.PatCache) (hv : Glob.PatCache.Va
       Glob.PatCache.Valid (Glob.cachedMatch cache pat path cs).2 :=
   cache_transparent cache hv pat path cs
 
-/-- the initial (empty) cache is valid, so by induction every reachable state is -/
+/-- the Globber's own access: the regex it tests paths with is the one compiled for *its*
+`(pattern, case_sensitive)`, whatever other entries the cache holds, and the cache stays valid -/
+theorem globber_cache_transparent (cache : Glob.PatCache) (hv : Glob.PatCache.Valid cache)
+    (pat subject : Str) (cs : Bool) :
+    (Glob.globberTest cache pat subject cs).1 = (Glob.compile pat cs).map (·.re.matches subject) ∧
+      Glob.PatCache.Valid (Glob.globberTest cache pat subject cs).2 :=
+  globber_transparent cache hv pat subject cs
+
+theorem wildcard_cache_transparent (cache : Wild.PatCache) (hv : Wild.PatCache.Valid cache)
+    (pat name : Str) (cs : Bool) :
+    (Wild.cachedMatch cache pat name cs).1 = Wild.wmatch pat name cs ∧
+      Wild.PatCache.Valid (Wild.cachedMatch cache pat name cs).2 :=
+  wild_cache_transparent cache hv pat name cs
+
+/-- **Every history.**  Any interleaving of `match`, `imatch`, Globber runs and wildcard matches —
+any patterns, the same pattern text in both case modes, any order — answers, call by call, what
+the same calls answer without a cache; in particular a case-insensitive use of a pattern never
+changes a later case-sensitive answer for the same text. -/
+theorem pattern_caches_transparent (ops : List Glob.CacheOp) (st : Glob.Caches) (hv : st.Valid) :
+    (Glob.runAll st ops).1 = ops.map Glob.CacheOp.direct ∧ (Glob.runAll st ops).2.Valid :=
+  runAll_transparent ops st hv
+
+/-- the initial (empty) caches are valid -/
 theorem pattern_cache_initial (n : Nat) : Glob.PatCache.Valid (LRU.empty n) := empty_valid n
+
+theorem pattern_caches_initial (n m : Nat) : Glob.Caches.Valid ⟨LRU.empty n, LRU.empty m⟩ :=
+  ⟨empty_valid n, fun e he => by cases he⟩
+
+/-- Globber case-insensitive, then `match` case-sensitive on the same pattern text -/
+example : (Glob.runAll ⟨LRU.empty 4, LRU.empty 4⟩
+    [.globber "a*".toList "/A1".toList false, .globMatch "a*".toList "/A1".toList true,
+     .globMatch "a*".toList "/A1".toList false, .globber "a*".toList "/A1".toList true]).1
+    = [.ok true, .ok false, .ok true, .ok false] := by decide
 
 end Fs.C14
